@@ -14,11 +14,13 @@ pub(crate) fn impl_sqrt(n: &BigUint, scale: i64, ctx: &Context) -> BigDecimal {
     let extra_rounding_digit_count = 5;
     let wanted_digits = 2 * (prec + extra_rounding_digit_count);
     let mut exponent = wanted_digits.saturating_sub(num_digits);
+    verif_probe_if!(exponent == 0, Sqrt_LongInput);
 
     // the scale of the shifted integer must be even, so that the root
     // of the integer is a power of ten away from the root of the decimal
     let mut shifted_scale = BigInt::from(scale) + exponent;
     if shifted_scale.is_odd() {
+        verif_probe!(Sqrt_ParityAdjust);
         exponent += 1;
         shifted_scale += 1;
     }
@@ -31,7 +33,9 @@ pub(crate) fn impl_sqrt(n: &BigUint, scale: i64, ctx: &Context) -> BigDecimal {
 
     // if the integer root is inexact, record the remainder as a
     // non-zero 'sticky' digit so it takes part in the final rounding
+    verif_probe_if!(&sqrt_digits * &sqrt_digits == shifted_digits, Sqrt_Exact);
     if &sqrt_digits * &sqrt_digits != shifted_digits {
+        verif_probe!(Sqrt_Sticky);
         sqrt_digits = sqrt_digits * 10u8 + 1u8;
         result_scale += 1;
     }
